@@ -8,7 +8,8 @@ exponent up to 21 digits).
 import JsonV.Props.C10Glue
 
 namespace JsonV.Lemmas.CanonIntCodec
-open JsonV JsonV.Fmt JsonV.Canon JsonV.Model.Number JsonV.Spec.Ecma
+open JsonV JsonV.Canon JsonV.Model.Number JsonV.Spec.Ecma
+open JsonV.Fmt hiding strOK respell
 open JsonV.Lemmas.NumInt JsonV.Lemmas.NumFloat JsonV.Lemmas.NumParse JsonV.Lemmas.CanonAtom JsonV.Props.C10Glue
 
 /-! ### decimal digits: `formatUint ∘ bytesVal` is the identity on canonical decimals -/
